@@ -336,7 +336,9 @@ enum IOp {
 // renderer and reused without clearing only shows when two renders have the same size, and only through pixels the
 // second render leaves untouched (a transparent background)
 // two widths and two heights: a bound that is set, overridden by the other one, and set again
-const IMAGE_ALPHABET: [IOp; 11] = [IOp::Shape(1), IOp::Margin(1), IOp::FitW(84), IOp::FitW(150), IOp::FitH(100), IOp::FitH(60), IOp::Color([0, 128, 0, 255]), IOp::Background([0, 0, 0, 0]), IOp::Png(0), IOp::Png(1), IOp::Png(2)];
+// FitW(0) asks for an empty picture: the render fails (a panic at the pinned commit). A failed render is part of a
+// history like any other call; renders after it (with the width set again) must be what they are without it
+const IMAGE_ALPHABET: [IOp; 12] = [IOp::Shape(1), IOp::Margin(1), IOp::FitW(84), IOp::FitW(150), IOp::FitH(100), IOp::FitH(60), IOp::Color([0, 128, 0, 255]), IOp::Background([0, 0, 0, 0]), IOp::Png(0), IOp::Png(1), IOp::Png(2), IOp::FitW(0)];
 
 #[derive(Clone, Debug, Default, PartialEq, Eq, Hash)]
 struct IModel {
@@ -789,6 +791,17 @@ pub fn run(ctx: &Ctx) -> Collector {
     let idepth = 4;
     let icount = IMAGE_ALPHABET.len().pow(idepth as u32);
     let istates: Mutex<HashSet<IModel>> = Mutex::new(HashSet::new());
+    // pass 0: histories without a failing render (their renders are the baseline per (state, symbol));
+    // pass 1: histories that contain the failing render
+    let baseline: Mutex<HashMap<(IModel, usize), u64>> = Mutex::new(HashMap::new());
+    let png_outcome = |b: &ImageBuilder, q: &QRCode| -> u64 {
+        match subject::guarded(|| b.to_bytes(q)) {
+            Ok(Ok(bytes)) => crate::util::fnv(&bytes) | 4,
+            Ok(Err(_)) => 1,
+            Err(_) => 3,
+        }
+    };
+    for pass in 0..2 {
     pool::par_for(icount, |idx| {
         let mut seq = vec![];
         let mut x = idx;
@@ -797,6 +810,9 @@ pub fn run(ctx: &Ctx) -> Collector {
             x /= IMAGE_ALPHABET.len();
         }
         seq.reverse();
+        if seq.iter().any(|o| matches!(o, IOp::FitW(0))) != (pass == 1) {
+            return;
+        }
         rtrans.fetch_add(idepth as u64, Ordering::Relaxed);
         let res = subject::guarded(|| {
             let mut f: Vec<(String, String)> = vec![];
@@ -829,10 +845,19 @@ pub fn run(ctx: &Ctx) -> Collector {
                         m.background = Some(c);
                     }
                     IOp::Png(qi) => {
-                        let got = b.to_bytes(&syms[qi].1).unwrap_or_default();
-                        let want = m.fresh().to_bytes(&syms[qi].1).unwrap_or_default();
+                        let got = png_outcome(&b, &syms[qi].1);
+                        let want = png_outcome(&m.fresh(), &syms[qi].1);
                         if got != want {
                             f.push(("history-dependent-png".into(), format!("step {}: PNG of the used ImageBuilder differs from a fresh one with the same final options", i)));
+                        }
+                        let key = (m.clone(), qi);
+                        let known = baseline.lock().unwrap().get(&key).copied();
+                        match known {
+                            Some(b0) if b0 != got => f.push(("history-dependent-png".into(), format!("step {}: this render (final options {:?}, symbol {}) differs from the same render in a history without a failed render before it", i, m, qi))),
+                            None if pass == 0 => {
+                                baseline.lock().unwrap().insert(key, got);
+                            }
+                            _ => {}
                         }
                         if subject::digest(&syms[qi].1) != sym_digest[qi] {
                             f.push(("render-modified-qrcode".into(), format!("step {}: the QRCode changed after a PNG render", i)));
@@ -852,6 +877,7 @@ pub fn run(ctx: &Ctx) -> Collector {
             col.violation((12, idx as u64), format!("C14/{}", k), w, json!({"kind": "render-history", "sequence": format!("{:?}", seq)}));
         }
     });
+    }
     let n_states_b = rstates.lock().unwrap().len() as u64 + istates.lock().unwrap().len() as u64;
     col.space(json!({"name": "(b) renderer histories", "cases": rcount + icount, "svg_depth": rdepth, "image_depth": idepth, "model_states": n_states_b, "distinct_renders_rechecked_in_fresh_process": list.len(), "what": "all SvgBuilder/terminal call sequences of depth 4 and ImageBuilder sequences; every render vs a fresh renderer, QRCode digest after every render, cross-process anchor", "exhaustive": true, "wall_s": (t1.elapsed().as_secs_f64() * 100.0).round() / 100.0}));
 
